@@ -45,6 +45,34 @@ theorem wcost_le (n : Nat) : wcost n ≤ n + 1 := by unfold wcost; omega
 theorem curCost_writeAll (sub : HSub) (i : Nat) (data : Bytes) :
     curCost sub (.writeAll i data) = (restOf sub data).length + 1 := by cases sub <;> rfl
 
+theorem curCost_readAllN (sub : HSub) : curCost sub .readAll = 1 := by cases sub <;> rfl
+
+/-- a handler suspended in a `readAll` in front of `rest ⊇ write_all data`: the script still pays for the write -/
+theorem HRead.cost {K : RCtx} {rest : List HOp} {L P : Bytes} {r : AReq} {h : HState} {e : Run.Env}
+    (hr : HRead K rest L P r h e) : scriptCost h = 1 + (rest.map opCost).sum := by
+  obtain ⟨ops, sub, ws, pr⟩ := h
+  have := hr.ops
+  simp only at this
+  subst this
+  simp only [scriptCost, curCost_readAllN]
+
+theorem Cfg.Rd.cost {g : Cfg} {r : AReq} {h : HState} {e : Run.Env} (hr : g.Rd r h e) :
+    wcost g.data.length ≤ scriptCost h := by
+  have hw := wcost_le g.data.length
+  rcases hr with ⟨_, hr⟩ | ⟨_, hr | ⟨hr, _⟩⟩
+  · rw [hr.cost]; simp [oscript, opCost]; omega
+  · rw [hr.cost]; simp [oscript, opCost, Cfg.Wc]; omega
+  · rw [hr.cost]; simp [oscript, opCost, Cfg.Wc]; omega
+
+/-- the fresh script of the role pays for its `write_all` -/
+theorem hscript_costN {g : Cfg} (ok : g.OKn) :
+    wcost g.data.length ≤ scriptCost { ops := g.hscript, propagate := true } := by
+  have hw := wcost_le g.data.length
+  cases ok.shape with
+  | responderU hr hb hf hp hX2 hX hU hOt hrv hs => rw [hs]; simp [scriptCost, script, curCost, opCost]; omega
+  | authorizer hr hX hU hOt hrv hs => rw [hs]; simp [scriptCost, oscript, curCost, opCost]; omega
+  | filterU hr hb hb2 hf hf2 hp hp2 hX2 hX hU hOt hrv hs => rw [hs]; simp [scriptCost, fscript, curCost, opCost]; omega
+
 /-- `write_phase` asking for the cost of the REST of the data only. -/
 theorem write_phaseN {W : WCtx} {Rd : AReq → HState → Run.Env → Prop} {O1 : Bytes}
     {r : AReq} {h : HState} {e : Run.Env} (hw : HWrite W O1 r h e) (hb : Ben e.tr)
@@ -435,7 +463,7 @@ theorem close_outN {g : Cfg} (ok : g.OKn) {c : Conn} {r r2 : AReq} {cs : CloseSt
 
 /-- One poll of the handler suspended in (or starting) one of its reads, for both roles that read. -/
 theorem rd_pollN {g : Cfg} (ok : g.OKn) {r : AReq} {h : HState} {e : Run.Env} (hr : g.Rd r h e) (hb : Ben e.tr)
-    {fuel : Nat} (hfu : 1000 + 4 * e.tr.input.length + 4 * g.cap ≤ fuel) :
+    {fuel : Nat} (hfu : 1000 + 4 * e.tr.input.length + 4 * g.cap + wcost g.data.length ≤ fuel) :
     HOut g.Wc g.Rd e (handlerPoll fuel r h e) := by
   have hcap : g.cap = alignedBufsize g.b := rfl
   cases ok.shape with
@@ -555,7 +583,7 @@ theorem rinv_startN {g : Cfg} (ok : g.OKn) (hrole : g.p.role = 1 ∨ g.p.role = 
 /-- the first poll of the handler, by role -/
 theorem first_pollN {g : Cfg} (ok : g.OKn) {e1 : Bytes} {e : Run.Env} (hlen : e1.length ≤ g.cap)
     (hwire : e1 ++ e.tr.input = g.X) (hlog : e.tr.wlog = g.L1) (hm : e.mutex = none) (hb : Ben e.tr)
-    {fuel : Nat} (hfu : 1000 + 4 * e.tr.input.length + 4 * g.cap ≤ fuel) :
+    {fuel : Nat} (hfu : 1000 + 4 * e.tr.input.length + 4 * g.cap + wcost g.data.length ≤ fuel) :
     HOut g.Wc g.Rd e (handlerPoll fuel (AReq.new (Str.Parser.fromParser g.cap g.p.request e1 g.mc))
       { ops := g.hscript, propagate := true } e) := by
   have hrst : g.p.role = 1 ∨ g.p.role = 3 →
@@ -620,7 +648,7 @@ theorem final_pollN {g : Cfg} (ok : g.OKn) {c1 : Conn} {F1 rest : Bytes} {t' : T
             { ops := g.hscript, propagate := true },
         (⟨t', c1.env.mutex, c1.env.segs⟩ : Run.Env).ev (hsEvent g.p.request), g.more, false⟩) rfl
     (first_pollN ok (e := (⟨t', c1.env.mutex, c1.env.segs⟩ : Run.Env).ev (hsEvent g.p.request)) he1len
-      (by show e1 ++ t'.input = g.X; rw [hinp']; exact hwire) hL1 hmx1 hben2 (Nat.le_trans hfuelH (Nat.le_add_right _ _))) hben2 rfl hev1 rfl
+      (by show e1 ++ t'.input = g.X; rw [hinp']; exact hwire) hL1 hmx1 hben2 (Nat.add_le_add hfuelH (hscript_costN ok))) hben2 rfl hev1 rfl
   have hres := Res.of_steps (Steps.one hstep') ⟨hwsE, rfl, hstop1.symm ▸ rfl⟩ hcore
   refine hres.mono ?_
   have h2 := congrArg List.length hinp'
@@ -689,12 +717,18 @@ theorem stage_pollN {g : Cfg} (ok : g.OKn) {c : Conn} (hst : Stage g c) :
   | start hph hwire hraw hlog hb hstop hsc hm hev => exact start_pollN ok hph hwire hraw hlog hb hstop hsc hm hev
   | parse hst hsc hm hev => exact (parse_pollN ok hst hsc hm hev).mono (by omega)
   | @hread r h hph hr hb hstop hev hsc =>
-    exact (handler_coreN ok hph (rd_pollN ok hr hb (Nat.le_trans hr.fuel (Nat.le_add_right _ _))) hb hstop hev hsc).mono (by omega)
+    exact (handler_coreN ok hph (rd_pollN ok hr hb (by rw [scriptOf_handler hph]; exact Nat.add_le_add hr.fuel hr.cost)) hb hstop hev hsc).mono (by omega)
   | @hwrite r h O1 hph hw hb hstop hev hsc =>
-    refine (handler_coreN ok hph (write_phase hw hb ?_) hb hstop hev hsc).mono (by omega)
-    have := handlerFuel_ge c.env r
-    have := ok.wfuel
-    show wcost g.data.length + 3 ≤ _
+    refine (handler_coreN ok hph (write_phaseN hw hb ?_) hb hstop hev hsc).mono (by omega)
+    have h1 := handlerFuel_ge c.env r
+    have h2 := wcost_le (restOf h.sub g.Wc.data).length
+    have h3 : scriptOf c = (restOf h.sub g.Wc.data).length + 1 + 2 := by
+      rw [scriptOf_handler hph]
+      obtain ⟨ops, sub, ws, pr⟩ := h
+      have := hw.ops
+      simp only at this
+      subst this
+      simp [scriptCost, wscript, curCost_writeAll, opCost]
     omega
   | @closeW r rest O1 O2 hph hO hce hm hlog hb hstop hev hre hsc =>
     refine (close_outN ok (r2 := r) (rest := rest) hO hph ?_ hce hm hlog hb hstop hev hre hsc).mono (by omega)
